@@ -178,6 +178,7 @@ Definition compile_dict (st : hstate) : res dict :=
   let max0 := if hs_user st then hs_nsys st else n in
   let max1 := if hs_user st then n else 0 in
   if forallb (entry_ok F (hs_liml st) (hs_limr st) max0 max1) es then
+    if index_err F es then Err else
     if existsb (indexed F) es then
       if existsb (fun e => indexed F e && e_surface_nul e) es then Panic
       else Ok (mkDict (if hs_user st then hs_sys_nl st else hs_nl st) (if hs_user st then hs_sys_nr st else hs_nr st)
@@ -238,7 +239,7 @@ Definition check_call (hdr_fits matrix_was_known : bool) (r : res (option dict))
       && (if d_user d then true else (fst dims =? d_nl d) && (snd dims =? d_nr d)
                                      && forallb (fun c => let '(l, r, v) := c in v =? cell_of_stores (d_nl d) (d_stores d) l r) cells)
       (* property predicate: once a matrix is known, success means a valid dictionary that loads and analyses *)
-      && (if matrix_was_known then dict_valid d && stores_in_range d && fine else true)
+      && (if matrix_was_known then dict_valid d && stores_in_range d && index_lists_ok d && fine else true)
   | Err => status_eqb st SErr
   | Panic => false
   end.
